@@ -484,6 +484,11 @@ func (trans *PromRangeVectorTransform) RangeCall(startPreLoc, endPreLoc, startCu
 		currBuf = trans.currBuf.times[startCurrLoc:endCurrLoc]
 		currValues = trans.currBuf.values[startCurrLoc:endCurrLoc]
 	}
+	if len(preBuf)+len(currBuf) == 0 {
+		// No sample in the window (a gap in the series, samples before and after it): a range function
+		// answers nothing for this step. min/max/sum/count/avg_over_time answered NaN / 0 here.
+		return
+	}
 	if retValue, ok := trans.callFn(preBuf, currBuf, preValues, currValues, rangeMaxt, trans.call); ok {
 		trans.newChunk.Column(0).AppendFloatValue(retValue)
 		trans.newChunk.AppendTime(start)
